@@ -126,7 +126,10 @@ func (fc *FnCtx) call(st *State, e *ast.CallExpr) []Term {
 	defer func() { fc.ptrArgs = savedPtrArgs }()
 
 	// anchored clauses before the call
+	savedAnchorArgs := fc.anchorArgs
+	fc.anchorArgs = args
 	fc.runAnchors(st, "call", ctext, ord, e.Pos(), nil)
+	fc.anchorArgs = savedAnchorArgs
 
 	var results []Term
 	switch {
@@ -151,7 +154,10 @@ func (fc *FnCtx) call(st *State, e *ast.CallExpr) []Term {
 	for _, r := range results {
 		fc.ownResult(st, r)
 	}
+	savedAnchorArgs = fc.anchorArgs
+	fc.anchorArgs = args
 	fc.runAnchors(st, "aftercall", ctext, ord, e.Pos(), results)
+	fc.anchorArgs = savedAnchorArgs
 	return results
 }
 
@@ -223,6 +229,7 @@ func (fc *FnCtx) unknownCall(st *State, e *ast.CallExpr, fn *types.Func, sig *ty
 		name = fn.FullName()
 	}
 	havocked := fc.havocForCall(st, fn, name)
+	fc.havocGhosts(st, fn)
 	if len(havocked) > 0 || fn == nil || fc.prog.FuncDecls[name] != nil {
 		fc.note("call %s at %s: no contract; results fresh, havoc %d heap keys", name, fc.posStr(e.Pos()), len(havocked))
 	}
@@ -296,6 +303,28 @@ func (fc *FnCtx) havocForCall(st *State, fn *types.Func, name string) []string {
 	return out
 }
 
+// havocGhosts gives fresh values to the ghost variables the callee's contract (or its callees' contracts) assigns.
+func (fc *FnCtx) havocGhosts(st *State, fn *types.Func) {
+	if fn == nil || !inModule(fn.Pkg()) {
+		return
+	}
+	for name := range fc.eng.frame.ghostWritesOf(fn, fc.contract.PkgPath) {
+		k := heapKey{"X", name}
+		old, ok := st.vars[k]
+		if !ok {
+			continue
+		}
+		var nv Term
+		if old.T != nil && sortOf(old.T) == old.Sort {
+			nv = fc.fresh(fc.keyName(k), old.T)
+		} else {
+			nv = fc.freshSort(fc.keyName(k), old.Sort)
+		}
+		nv.T = old.T
+		st.vars[k] = nv
+	}
+}
+
 func (fc *FnCtx) stateKeys(st *State) []any {
 	var out []any
 	for _, k := range fc.keyOrder {
@@ -353,6 +382,7 @@ func (fc *FnCtx) contractCall(st *State, e *ast.CallExpr, fn *types.Func, sig *t
 	} else {
 		fc.havocForCall(st, fn, fn.FullName())
 	}
+	fc.havocGhosts(st, fn)
 	results := fc.resultTerms(sig, "r_"+smtIdent(ctext))
 	names := c.ResultNames
 	if names == nil {
